@@ -286,7 +286,7 @@ func JudgeStep(st *Step, rep Reporter) Doc {
 			}
 		case ex.NewCas == 1 || (ex.NewCas == -1 && pre.Present && obsCas != pre.Cas):
 			if pre.Present && obsCas == pre.Cas {
-				rep(uniq("C01", "C04"), "post.cas.unchanged", fmt.Sprintf("%s on %s succeeded but the CAS did not change (%d)", o.Variant(), pre.Class(), obsCas))
+				rep(uniq("C01", "C02", "C04"), "post.cas.unchanged", fmt.Sprintf("%s on %s succeeded but the CAS did not change (%d)", o.Variant(), pre.Class(), obsCas))
 			} else if pre.Present && obsCas < pre.Cas {
 				// also when the earlier version was stamped by a WithMeta write (a replicated document whose CAS is ahead
 				// of the local clock): "a later write to a key always carries a larger CAS than an earlier one"
